@@ -643,6 +643,13 @@ func (sc *SpecCtx) call(e *Expr) Value {
 	case "map_get": // map_get(m, k): stored value (meaningful when in_dom)
 		m, k := sc.eval(e.Args[0]), sc.eval(e.Args[1])
 		return sc.x.mapGetIn(st, sc.cur, m, k.T)
+	case "addrof": // addrof(x): the address (cell) of local variable x
+		if len(e.Args) == 1 && e.Args[0].Op == "ident" && sc.resolver != nil {
+			if v, ok := sc.resolver("&" + e.Args[0].Name); ok {
+				return v
+			}
+		}
+		sc.fail("addrof() needs a local variable that lives in memory")
 	case "dynref": // dynref(x): the pointer held by interface value x
 		v := sc.eval(e.Args[0])
 		if len(v.Fs) == 1 && v.Fs[0].K == VRef {
@@ -691,7 +698,8 @@ func (sc *SpecCtx) call(e *Expr) Value {
 		}
 		a := sc.eval(e.Args[0])
 		if a.K == VAddr {
-			a = st.addrToRef(a)
+			// ghost state of an embedded object (a mutex, a WaitGroup field) is keyed by its owner
+			a = Value{K: VRef, T: a.A.Root}
 		}
 		sort, _ := ghostSort(g)
 		h := st.heapTermIn(sc.cur, "ghost:"+g.Name, 1, sort)
